@@ -15,6 +15,7 @@ import (
 
 	"github.com/anishathalye/porcupine"
 	"github.com/buchgr/bazel-remote/v2/cache"
+	pb "github.com/buchgr/bazel-remote/v2/genproto/build/bazel/remote/execution/v2"
 )
 
 // conc — scenario family S2: 2..5 clients issue operations on a few shared
@@ -269,7 +270,7 @@ func conc(c *Ctx) {
 	for ci := 0; ci < nClients; ci++ {
 		nOps := 2 + r.Intn(5)
 		for j := 0; j < nOps; j++ {
-			opKind := r.Weighted(4, 4, 3, 3, 2, 2, 2)
+			opKind := r.Weighted(4, 4, 3, 3, 2, 2, 2, 1)
 			if ow {
 				opKind = []int{0, 1, 4, 4, 0, 1, 4, 2}[r.Intn(8)]
 			}
@@ -433,6 +434,35 @@ func conc(c *Ctx) {
 					}
 					if !corruptKey["cas/"+b.Hash] {
 						add(histOp{client: ci, key: "cas/" + b.Hash, val: b.Hash, ok: res.Found, miss: !res.Found, call: res.Call, ret: res.Ret})
+					}
+				}})
+			case 7: // SpliceBlob over blobs of the universe (present or not; in a tight cache the result often exceeds max_size)
+				var parts []*world.Blob
+				for k := 2 + r.Intn(2); k > 0; k-- {
+					parts = append(parts, casBlobs[r.Intn(len(casBlobs))])
+				}
+				var whole []byte
+				var ds []*pb.Digest
+				descr := "splice"
+				for _, b := range parts {
+					whole = append(whole, b.Data...)
+					ds = append(ds, world.Digest(b.Hash, b.Size()))
+					descr += " " + b.ID.String()
+				}
+				var bd *pb.Digest
+				if r.Chance(2, 3) {
+					bd = world.Digest(world.HashOf(whole), int64(len(whole)))
+				}
+				plans[ci] = append(plans[ci], planned{descr: descr, run: func(cl *world.Client, ci int) {
+					res, got := cl.Splice(bd, ds)
+					s.Note("c%d %s -> %s", ci, descr, res.Code)
+					if res.OK && got != nil && (got.Hash != world.HashOf(whole) || got.SizeBytes != int64(len(whole))) {
+						s.Violate("C01.ack-match", "SpliceBlob", "SpliceBlob answered digest %s/%d for a %d byte concatenation", short(got.Hash), got.SizeBytes, len(whole))
+					}
+					if !res.OK {
+						s.Probe("splice_refused_or_chunk_missing")
+					} else {
+						s.Probe("splice_ok")
 					}
 				}})
 			case 6: // pressure: an unrelated blob
